@@ -759,3 +759,75 @@ def dead_branches(ctx, quals):
                       found=f'test of line {dup[1].lineno} repeats the test of line {dup[0].lineno}: {ast.unparse(dup[1].test)}' if dup else f'{len(chain)} distinct tests',
                       expected='all tests of an if/elif chain are distinct', reason='the second arm is unreachable',
                       key=f'{R}|{q}|{ast.unparse(dup[1].test) if dup else ""}')
+
+
+# ---------------------------------------------------------------------------
+# C15 #1 / C13 #7: recognition is total; listing
+
+REF_IS_COOLER = '''
+def ref(uri):
+    filepath, grouppath = parse_cooler_uri(uri)
+    if not h5py.is_hdf5(filepath):
+        return False
+    with h5py.File(filepath) as f:
+        if grouppath not in f:
+            return False
+        return _is_cooler(f[grouppath])
+'''
+
+REF_LIST_COOLERS = '''
+def ref(filepath):
+    if not h5py.is_hdf5(filepath):
+        raise OSError("not hdf5")
+    listing = []
+
+    def _check_cooler(pth, grp):
+        if _is_cooler(grp):
+            listing.append("/" + pth if not pth.startswith("/") else pth)
+
+    with h5py.File(filepath, "r") as f:
+        _check_cooler("/", f)
+        visititems(f, _check_cooler)
+    return natsorted(listing)
+'''
+
+
+def recognition_total(ctx):
+    """No subscript with a caller-supplied key on an HDF5 object without a
+    membership test or a KeyError handler; non-HDF5 -> False."""
+    from ..refcompare import compare
+    R = 'RECOG.total'
+    fa = ctx.fa('cooler.fileops.is_cooler')
+    compare(ctx, 'RECOG.is_cooler', fa, REF_IS_COOLER, module='cooler.fileops',
+            why='false - not an error - for a file that is not HDF5 and for a group path that does not exist')
+    # generic form of the rule, on the recognisers
+    for q in ('cooler.fileops.is_cooler', 'cooler.fileops.is_multires_file', 'cooler.fileops.is_scool_file'):
+        f = ctx.fa(q)
+        params = {V(p) for p in f.params}
+        for e in f.events:
+            if e.kind != 'call' or e.f != G('cooler.fileops._is_cooler') or not e.args:
+                continue
+            g = e.args[0]
+            if g[0] != 'sub':
+                continue
+            key = g[2]
+            base = g[1]
+            tainted = any(T.contains(key, p) for p in params) and key[0] != 'c'
+            guarded = any(c[0] == 'cmp' and c[1] in ('in', 'notin') and ((c[2] == key and (c[1] == 'in') == p)) for c, p in e.guards) \
+                or any(c[0] == 'cmp' and c[1] == 'notin' and c[2] == key and not p for c, p in e.guards) \
+                or e.handled('KeyError')
+            derived = key[0] in ('elem', 'call')      # a key read from the file itself
+            ctx.check((not tainted) or guarded or derived, R, f'{q.split(".")[-1]}:{T.show(key)[:30]}', ctx.where(f, e),
+                      found=f'subscript {T.show(g)[:80]} ' + ('guarded' if guarded else 'unguarded'),
+                      expected='membership test or KeyError handler before a caller-supplied key is used',
+                      reason='the recognition test must be false, not an error, for a non-existent path',
+                      key=f'{R}|{q}|unguarded-subscript')
+
+
+def listing(ctx):
+    from ..refcompare import analyze_source, compare
+    fa = ctx.fa('cooler.fileops.list_coolers')
+    ref = analyze_source(ctx.repo, 'cooler.fileops', REF_LIST_COOLERS)
+    compare(ctx, 'LIST.list_coolers', fa, None, ref_fa=ref, why='the root and every descendant are tested; paths are absolute; result sorted')
+    compare(ctx, 'LIST.list_coolers._check', ctx.fa('cooler.fileops.list_coolers.<locals>._check_cooler'), None,
+            ref_fa=ref.nested_analyses['_check_cooler'], why='exactly the groups recognised as coolers are listed, with a leading slash')
